@@ -12,7 +12,7 @@ PROPS["C05"] = dict(
     generators=[dict(name="C05", quick=3000, thorough=200000)],
     harness=["impl"],
     assumptions=["Go int is 64 bit; datagrams are at most 9000 bytes"],
-    level_text="Theorems for all headers, all record lists and all truncations/counts (unbounded): decode∘encode = id, exactly min(count, complete records) records, never more records than 48-byte units present; the model is tied to decoders/netflowlegacy by the regenerated read-order fact and by differential execution (spec-generated datagrams and truncations).",
+    level_text="Theorems for all headers, all record lists and all truncations/counts (unbounded): decode∘encode = id, exactly min(count, complete records) records, never more records than 48-byte units present; the model is tied to decoders/netflowlegacy by the regenerated read-order fact and by differential execution (spec-generated datagrams and truncations). The decoder itself (DecodeMessage, DecodeMessageVersion) is TRANSLATED from the Go source on every run and proved equal to the model for every byte string and every previous content of the packet object (C05Trans: decodeMessageVersion_trans_eq).",
 )
 
 PROPS["C03"] = dict(
@@ -20,7 +20,7 @@ PROPS["C03"] = dict(
     theorems=['Goflow.C03Trans.getTemplateSize_eq', 'Goflow.C03.field_roundtrip', 'Goflow.C03.optionField_roundtrip', 'Goflow.C03.templateSet_roundtrip', 'Goflow.C03.optionsTemplateSet_roundtrip_v9', 'Goflow.C03.optionsTemplateSet_roundtrip_ipfix', 'Goflow.C03.record_roundtrip', 'Goflow.C03.encRecord_length_ge', 'Goflow.C03.dataSet_roundtrip', 'Goflow.C03.optionsDataSet_roundtrip', 'Goflow.C03.flowSet_roundtrip', 'Goflow.C03.messageCommon_roundtrip', 'Goflow.C03.roundtrip'],
     generators=[dict(name="C03", quick=4000, thorough=100000)],
     harness=["impl"],
-    level_text="Theorem roundtrip: decode (encode m) = m for every well-formed NetFlow v9 / IPFIX message against an RFC encoder (template store update, padding, enterprise bit, variable length), plus the differential run of the encoder's output through the Go decoder.",
+    level_text="Theorem roundtrip: decode (encode m) = m for every well-formed NetFlow v9 / IPFIX message against an RFC encoder (template store update, padding, enterprise bit, variable length), plus the differential run of the encoder's output through the Go decoder. GetTemplateSize is translated from the source and proved equal to the model's templateSize (C03Trans).",
 )
 
 PROPS["C04"] = dict(
@@ -29,7 +29,7 @@ PROPS["C04"] = dict(
               'Goflow.C04.flowRecord_roundtrip', 'Goflow.C04.counterRecord_roundtrip', 'Goflow.C04.sample_roundtrip', 'Goflow.C04.roundtrip', 'Goflow.C04.exampleDatagram_wf'],
     generators=[dict(name="C04", quick=4000, thorough=150000)],
     harness=["impl"],
-    level_text="Theorem roundtrip: decodeMessageVersion (encode d) = ok (expected d) for every well-formed sFlow v5 datagram (all five sample kinds, eleven flow record kinds, counter records), plus the differential run against the Go decoder.",
+    level_text="Theorem roundtrip: decodeMessageVersion (encode d) = ok (expected d) for every well-formed sFlow v5 datagram (all five sample kinds, eleven flow record kinds, counter records), plus the differential run against the Go decoder. DecodeIP is translated from the source and proved equal to the model (C04Trans); the sample and record decoders are hand-written, tied by the differential run.",
 )
 
 PROPS["C07"] = dict(
@@ -103,7 +103,7 @@ PROPS["C12"] = dict(
     generators=[dict(name="C12", quick=150, thorough=4000)],
     harness=["impl"],
     confirm_alone=True,
-    level_text="Theorems: reset_total, pool_independent (the messages of a datagram are a function of the datagram, the receive metadata, the configuration and the exporter's templates and rates only), sflow_stateless; with the message pool inside the model (Goflow/Pool.lean: sync.Pool with arbitrary content, an oracle for every Get, Reset, the converters writing into the message they are given, Produce's stamps, the deferred Commit): history_pool_free — for every history, every initial pool and every oracle the outputs equal those of the pool-less model; leak_without_reset shows the Reset carries it; state_inventory ties the model's inventory of what outlives a datagram (members of the pooled message, Get / Put sites with the statement after each Get, FlowMessage.Reset, fields of pipes / producer / template and sampling systems, package-level variables) to the source on every run. Histories with pool poisoning, half-failed datagrams and custom fields printed as JSON / text are the tie, and a differing stateless datagram is re-run alone in a fresh process.",
+    level_text="Theorems: reset_total, pool_independent (the messages of a datagram are a function of the datagram, the receive metadata, the configuration and the exporter's templates and rates only), sflow_stateless; with the message pool inside the model (Goflow/Pool.lean: sync.Pool with arbitrary content, an oracle for every Get, Reset, the converters writing into the message they are given, Produce's stamps, the deferred Commit): history_pool_free — for every history, every initial pool and every oracle the outputs equal those of the pool-less model; leak_without_reset shows the Reset carries it; state_inventory ties the model's inventory of what outlives a datagram (members of the pooled message, Get / Put sites with the statement after each Get, FlowMessage.Reset, fields of pipes / producer / template and sampling systems, package-level variables) to the source on every run. Histories with pool poisoning, half-failed datagrams and custom fields printed as JSON / text are the tie, and a differing stateless datagram is re-run alone in a fresh process. commit_once: the only Commit calls are the two deferred ones right behind the production step of the pipes (regenerated call sites); a format refusing the k-th message of a datagram (`failat`) is part of the histories and of the model (refuseAt_*).",
 )
 
 PROPS["C13"] = dict(
@@ -168,7 +168,7 @@ PROPS["C19"] = dict(
     watchdog_ms=30000,
     assumptions=["a single write(2) on an O_APPEND descriptor is atomic with respect to other writers of the same file",
                  "fmt.Fprint issues one Write call for its whole argument"],
-    level_text="Theorems over the file transport's transition system for every number of senders, rotations and interleavings: no write on a closed file, every message written exactly once, every unit in one file; closed_write_possible for the pinned protocol. Runtime tie: plans forced through the file.send.picked / file.reopened hooks and an unscheduled stress run with messages up to 33 KB. Assumes a write(2) on an O_APPEND descriptor is atomic.",
+    level_text="Theorems over the file transport's transition system for every number of senders, rotations and interleavings: no write on a closed file, every message written exactly once, every unit in one file; closed_write_possible for the pinned protocol. Runtime tie: plans forced through the file.send.picked / file.reopened hooks and an unscheduled stress run with messages up to 33 KB. Assumes a write(2) on an O_APPEND descriptor is atomic. With failing reopens (C19Faults): acked_written, failed_not_written, written_iff, no_partial_units, lock_exclusion, after_failed_reopen_sends_fail for every sender count and schedule.",
 )
 
 PROPS["C17"] = dict(
@@ -182,7 +182,7 @@ PROPS["C17"] = dict(
     watchdog_ms=120000,
     assumptions=["kernel-level loss before ReadFromUDP is outside the model; the udp.read hook gives the exact number of datagrams taken from the kernel",
                  "Go channels, sync.Pool and sync.WaitGroup behave as documented (they are the step rules of the transition system)"],
-    level_text="Theorems over the receiver's transition system (readers, queue, workers, Stop) for every reader / worker count, queue capacity and schedule: conservation (each datagram read is decoded once or dropped once), decoded / dropped disjoint, blocking mode never drops, buffers are exclusive. PARTIAL: the atomic steps are validated against real sockets through the udp.read hook, kernel behaviour is outside the model.",
+    level_text="Theorems over the receiver's transition system (readers, queue, workers, Stop) for every reader / worker count, queue capacity and schedule: conservation (each datagram read is decoded once or dropped once), decoded / dropped disjoint, blocking mode never drops, buffers are exclusive. PARTIAL: the atomic steps are validated against real sockets through the udp.read hook, kernel behaviour is outside the model. Blocking with a queue of any capacity (C17Faults): drop is disabled at every point of every run.",
 )
 
 import e2e
@@ -199,7 +199,7 @@ PROPS["C18"] = dict(
     extra=[e2e.sigterm_backlog],
     watchdog_ms=60000,
     assumptions=["decoder calls return (the `finish` step is always eventually taken); socket rebinding and process exit are runtime behaviour seen only by the harness"],
-    level_text="Theorems: start_stop_results (every Start / Stop sequence returns what the specification says), quit_open_after_every_call, stop_drains, stop_not_stuck, shutdown_order and the synchronisation skeletons regenerated from the source. Runtime tie: every call sequence up to length 4 on real receivers with traffic and a liveness check, and an end-to-end SIGTERM-with-backlog run of the goflow2 binary. PARTIAL: process exit and socket rebinding are observed, not proved.",
+    level_text="Theorems: start_stop_results (every Start / Stop sequence returns what the specification says), quit_open_after_every_call, stop_drains, stop_not_stuck, shutdown_order and the synchronisation skeletons regenerated from the source. Runtime tie: every call sequence up to length 4 on real receivers with traffic and a liveness check, and an end-to-end SIGTERM-with-backlog run of the goflow2 binary. PARTIAL: process exit and socket rebinding are observed, not proved. Statement-level model with failing binds and per-Start decoders (C18Faults): results_spec_faults, never_hangs, workers_run_session_decoder, failed_start_restartable for every call sequence; `updown` sequences incl. Starts that cannot bind are computed by that model.",
 )
 
 PROPS["C20"] = dict(
@@ -210,7 +210,7 @@ PROPS["C20"] = dict(
     harness=["impl"],
     count_all=True,
     watchdog_ms=60000,
-    level_text="PARTIAL by a wide margin: theorems cover the 30-line adapter (topic/key/value unchanged and in order; producer.Close precedes the stop of the error forwarder, as regenerated from the source; producer_settings_match: every assignment of a sarama producer setting in Init with its conditions, regenerated — error stream on, size limit and flush threshold separate flags, hash partitioner exactly under the hashing flag) and the consequences of a stated contract of sarama's AsyncProducer; delivery, retries and the error stream live in sarama's runtime and are exercised against an in-process mock broker (batches of 1..2000, flush settings, hashing on/off, produce-error and broker-closed fault scripts), not proved.",
+    level_text="PARTIAL by a wide margin: theorems cover the 30-line adapter (topic/key/value unchanged and in order; producer.Close precedes the stop of the error forwarder, as regenerated from the source; producer_settings_match: every assignment of a sarama producer setting in Init with its conditions, regenerated — error stream on, size limit and flush threshold separate flags, hash partitioner exactly under the hashing flag) and the consequences of a stated contract of sarama's AsyncProducer; delivery, retries and the error stream live in sarama's runtime and are exercised against an in-process mock broker (batches of 1..2000, flush settings, hashing on/off, produce-error and broker-closed fault scripts), not proved. Lifecycles of the singleton driver as a transition system (C20Faults): every_lifecycle_flushed, close_forwards_nonblocking, close_returns_within for every schedule, under the same stated contract.",
     assumptions=["sarama AsyncProducer contract (Goflow.Conc.KafkaAdapter.Contract): every message accepted on Input() before Close is delivered exactly once unchanged when Close returns; HashPartitioner is a function of the key bytes",
                  "the mock broker speaks the Kafka 0.11 produce protocol (transport.kafka.version=0.11.0.0 in the harness)"],
 )
